@@ -8,6 +8,7 @@ CONSTRAINT Depth
 PROPERTY P_Frame
 PROPERTY P_Taken
 PROPERTY P_Robust
+PROPERTY P_PubCurrent
 PROPERTY P_Reply
 PROPERTY P_Write
 PROPERTY P_Rule
